@@ -24,8 +24,7 @@ CONSTANTS Urls,        \* URL tokens
           MaxLen,      \* steps per behaviour
           MaxArgs,     \* extensions per variadic call
           MaxEntries,  \* list length bound
-          InitLists,   \* initial lists
-          EmitAll      \* TRUE: print every explored behaviour (exhaustive mode); FALSE: only complete ones (-simulate)
+          InitLists    \* initial lists
 
 VARIABLES exts, held, last, hist
 vars == <<exts, held, last, hist>>
@@ -55,7 +54,7 @@ Do(st) ==
      /\ held' = h
      /\ last' = [step |-> st, ret |-> ret]
      /\ hist' = Append(hist, rec)
-     /\ (EmitAll \/ Len(hist') = MaxLen) => PrintT(ToJson([kind |-> "beh", steps |-> hist']))
+     /\ PrintT(ToJson([kind |-> "beh", steps |-> hist']))
 
 Upsert      == \E e \in Exts : Do(Step("Upsert", e.url, <<e>>, 0))
 SetByURL    == \E u \in Urls : \E vs \in SameKindSeqs :
